@@ -362,23 +362,39 @@ func settled(st []TopicSpec) bool {
 	return true
 }
 
-// settle waits for the exact quiescence condition of the topic pumps (an un-paused topic
-// with channels has an empty queue) and, when [gone] is given, for that topic to vanish
-// (the self-deletion of an ephemeral topic that lost its last channel is asynchronous).
+// settle waits for the exact quiescence condition of the topic pumps and returns the
+// state read at that point.  Topic.messagePump takes a message out of the topic queue and
+// only then copies it to the channels, so "queue empty" alone can be observed while the
+// last message is still in the pump's hand.  The pump serves its pauseChan only from its
+// select loop, never in the middle of a hand-off: a synchronous UnPause() of an already
+// un-paused topic (a no-op for the state) therefore returns only after every message the
+// pump had taken has reached the channels.  Sequence: queue empty -> rendezvous -> read
+// again.  When [gone] is given the topic must also have vanished (the self-deletion of an
+// ephemeral topic that lost its last channel is asynchronous).
 func settle(d *daemon, gone string) ([]TopicSpec, bool) {
 	deadline := time.Now().Add(5 * time.Second)
 	for {
 		st := snapshot(d)
-		ok := settled(st)
-		if ok && gone != "" {
+		if settled(st) {
 			for _, t := range st {
-				if t.Name == gone && len(t.Chans) == 0 {
-					ok = false
+				if !t.Paused && len(t.Chans) > 0 {
+					if tp, err := d.n.GetExistingTopic(t.Name); err == nil {
+						tp.UnPause()
+					}
 				}
 			}
-		}
-		if ok {
-			return st, true
+			st = snapshot(d)
+			ok := settled(st)
+			if ok && gone != "" {
+				for _, t := range st {
+					if t.Name == gone && len(t.Chans) == 0 {
+						ok = false
+					}
+				}
+			}
+			if ok {
+				return st, true
+			}
 		}
 		if time.Now().After(deadline) {
 			return st, false
@@ -655,6 +671,9 @@ func harvest(d *daemon, name string) enq {
 	e.defBody, e.defDelay = bodies, delays
 	if len(e.got) != depth || len(bodies) != deferred || count != depth+deferred {
 		e.complete = false
+		if os.Getenv("HTTPDRIVE_DEBUG") != "" {
+			fmt.Fprintf(os.Stderr, "harvest %q: got=%d depth=%d hookdeferred=%d deferred=%d count=%d\n", name, len(e.got), depth, len(bodies), deferred, count)
+		}
 	}
 	d.n.DeleteExistingTopic(name)
 	return e
@@ -1442,6 +1461,12 @@ func textBody(r *lib.Rand) []byte {
 		}
 	case 2: // only blank lines
 		b.Write(bytes.Repeat([]byte("\n"), r.Intn(5)))
+	case 3: // CRLF line ends, spaces and tabs: all of them message bytes
+		lines := 1 + r.Intn(5)
+		for i := 0; i < lines; i++ {
+			b.WriteString(strings.Repeat(string(nameAlphabet[r.Intn(26)]), r.Intn(4)))
+			b.WriteString([]string{"\r\n", "\r\n", " \n", "\t\n", "\r\r\n", "\n"}[r.Intn(6)])
+		}
 	default:
 		lines := 1 + r.Intn(7)
 		for i := 0; i < lines; i++ {
@@ -1587,14 +1612,17 @@ func genAdminMatrix(r *lib.Rand) []Input {
 			Req: &ReqSpec{Method: "POST", Target: path + "?" + query, Framing: fr, Body: body}})
 		k++
 	}
-	topics := []string{"t1", "t2", "e%23ephemeral", "lonely", "nosuch", "bad+name", "new.topic", strings.Repeat("n", 65)}
+	// (the last four: duplicated arguments - the first value is the one that counts)
+	topics := []string{"t1", "t2", "e%23ephemeral", "lonely", "nosuch", "bad+name", "new.topic", strings.Repeat("n", 65),
+		"t1&topic=t2", "bad+name&topic=t2", "new.one&topic=bad+name", "nosuch&topic=t1"}
 	for _, p := range []string{"/topic/create", "/topic/delete", "/topic/empty", "/topic/pause", "/topic/unpause"} {
 		for _, t := range topics {
 			add(p, "topic="+t)
 		}
 	}
 	pairs := [][2]string{{"t1", "c1"}, {"t1", "c2"}, {"t2", "c1"}, {"t2", "c2"}, {"e%23ephemeral", "c1"}, {"t1", "nosuch"}, {"t1", "bad+name"},
-		{"t1", "a%23b"}, {"nosuch", "c1"}, {"lonely", "fresh"}, {"lonely", "fresh%23ephemeral"}, {"bad+name", "c1"}, {"t2", strings.Repeat("c", 65)}}
+		{"t1", "a%23b"}, {"nosuch", "c1"}, {"lonely", "fresh"}, {"lonely", "fresh%23ephemeral"}, {"bad+name", "c1"}, {"t2", strings.Repeat("c", 65)},
+		{"t1&topic=t2", "c1"}, {"t2", "c2&channel=c1"}, {"t2", "bad+name&channel=c1"}, {"nosuch&topic=t2", "c1"}, {"t2", "fresh&channel=bad+name"}}
 	for _, p := range []string{"/channel/create", "/channel/delete", "/channel/empty", "/channel/pause", "/channel/unpause"} {
 		for _, tc := range pairs {
 			add(p, "topic="+tc[0]+"&channel="+tc[1])
@@ -1653,6 +1681,9 @@ func genPubBoundary() []Input {
 			add("mpub-text", "/mpub?topic=bound", fr, append(bytes.Repeat([]byte("l"), n), '\n'))
 			add("mpub-text", "/mpub?topic=bound", fr, append([]byte("ok\n"), bytes.Repeat([]byte("l"), n)...))
 		}
+		// carriage returns are message bytes, not separators
+		add("mpub-text", "/mpub?topic=bound", fr, []byte("one\r\ntwo\r\n\r\nthree\r"))
+		add("mpub-text", "/mpub?topic=bound", fr, []byte("\r\n\r\r\n \n\t\n"))
 		// binary batches of exactly 319 / 320 / 321 bytes: 4 + 4*(4+64) + (4+n)
 		for _, n := range []int{39, 40, 41} {
 			var p bytes.Buffer
